@@ -5,7 +5,8 @@
    (here: for the control flow before the repairs 3de556b / fe25b5c, kept as regression witnesses). *)
 From Coq Require Import List Arith ZArith QArith Reals Bool Lia.
 From TLV Require Import Base.Shape Base.Tensor Base.RSum Model.Structure Proofs.StructureProofs Proofs.StructureProofs2
-  Proofs.StructureProofs3 Proofs.StructureProofsR Proofs.StructureNormR.
+  Proofs.StructureProofs3 Proofs.StructureProofs4 Proofs.StructureProofsQ Proofs.StructureProofsR Proofs.StructureNormR.
+From TLV Require Import Model.StructureQ.
 Import ListNotations.
 Local Open Scope nat_scope.
 
@@ -87,6 +88,12 @@ Print Assumptions C08_tensor_train_exact_ranks.
 Example C08_tensor_train_exact_ranks_ex : tensor_train [3; 4; 5] (RList [1; 2; 3; 1]) 0 = Ok [[1; 3; 2]; [2; 4; 3]; [3; 5; 1]].
 Proof. vm_compute. reflexivity. Qed.
 
+(* validate_tt_rank(allow_overparametrization=False) predicts exactly the TT ranks that tensor_train achieves (after 03a63dd) *)
+Theorem C08_tensor_train_ranks_predicted : forall shape spec c cores r,
+  tensor_train shape spec c = Ok cores -> validate_tt_rank shape spec false RRound false c = Ok r -> core_ranks cores = r.
+Proof. exact tensor_train_ranks_predicted. Qed.
+Print Assumptions C08_tensor_train_ranks_predicted.
+
 (* tensor_train_matrix: n cores of order 4, core k = (r_k, in_k, out_k, r_k+1), boundary ranks 1 *)
 Theorem C08_tensor_train_matrix_structure : forall tshape spec c out, tensor_train_matrix tshape spec c = Ok out ->
   let n := length tshape / 2 in
@@ -149,28 +156,31 @@ Theorem C08_validate_tucker_rank_frac_pos : forall shape q rd c r, validate_tuck
 Proof. exact validate_tucker_rank_frac_pos. Qed.
 Print Assumptions C08_validate_tucker_rank_frac_pos.
 
-(* tucker with fixed factors.  As the code is, the ranks of the updated modes are read at the wrong positions of the rank list
-   (known finding tucker_fixed_factors_rank_misaligned): the shapes are the requested ones only under the named hypotheses. *)
-Theorem C08_tucker_fixed_constant_rank_partial : forall shape r fixed,
-  tucker_fixed shape (repeat r (length shape)) fixed = tucker_fixed_intended shape (repeat r (length shape)) fixed.
-Proof. exact tucker_fixed_constant_rank. Qed.
-Print Assumptions C08_tucker_fixed_constant_rank_partial.
-Theorem C08_tucker_fixed_trailing_partial : forall shape rank fixed k, (forall i, memb i fixed = true <-> k <= i) ->
-  tucker_fixed shape rank fixed = tucker_fixed_intended shape rank fixed.
-Proof. exact tucker_fixed_trailing. Qed.
-Print Assumptions C08_tucker_fixed_trailing_partial.
-Theorem C08_tucker_fixed_refuted :
-  tucker_fixed [4; 5; 6] [2; 3; 4] [0] = Ok [[2; 2; 3]; [4; 2]; [5; 2]; [6; 3]] /\
-  tucker_fixed_intended [4; 5; 6] [2; 3; 4] [0] = Ok [[2; 3; 4]; [4; 2]; [5; 3]; [6; 4]].
-Proof. exact tucker_fixed_misaligned. Qed.
-Print Assumptions C08_tucker_fixed_refuted.
-(* the intended flow (candidate repair): factor m is I_m x rank_m for a fixed mode, I_m x min(rank_m, I_m) for an updated one *)
-Theorem C08_tucker_fixed_intended_structure : forall shape rank fixed out, tucker_fixed_intended shape rank fixed = Ok out ->
+(* tucker with fixed factors (after 86b5335): factor m is I_m x rank_m for a fixed mode (the user's factor), I_m x min(rank_m, I_m)
+   for an updated one, and the core has exactly these sizes *)
+Theorem C08_tucker_fixed_structure : forall shape rank fixed out, tucker_fixed shape rank fixed = Ok out ->
   exists core factors, out = core :: factors /\ length core = length shape /\ length factors = length shape /\
   forall m, m < length shape -> nth m factors [] = [nth m shape 0; nth m core 0] /\
     nth m core 0 = if memb m fixed then nth m rank 0 else Nat.min (nth m rank 0) (nth m shape 0).
-Proof. exact tucker_fixed_intended_structure. Qed.
-Print Assumptions C08_tucker_fixed_intended_structure.
+Proof. exact tucker_fixed_structure. Qed.
+Print Assumptions C08_tucker_fixed_structure.
+Example C08_tucker_fixed_ex : tucker_fixed [4; 5; 6] [2; 3; 4] [0] = Ok [[2; 3; 4]; [4; 2]; [5; 3]; [6; 4]].
+Proof. reflexivity. Qed.
+(* regression witnesses: before 86b5335 the ranks of the updated modes were read at the wrong positions of the rank list; the
+   shapes were the requested ones only for equal ranks or trailing fixed modes *)
+Theorem C08_tucker_fixed_old_constant_rank_partial : forall shape r fixed,
+  tucker_fixed_old shape (repeat r (length shape)) fixed = tucker_fixed shape (repeat r (length shape)) fixed.
+Proof. exact tucker_fixed_constant_rank. Qed.
+Print Assumptions C08_tucker_fixed_old_constant_rank_partial.
+Theorem C08_tucker_fixed_old_trailing_partial : forall shape rank fixed k, (forall i, memb i fixed = true <-> k <= i) ->
+  tucker_fixed_old shape rank fixed = tucker_fixed shape rank fixed.
+Proof. exact tucker_fixed_trailing. Qed.
+Print Assumptions C08_tucker_fixed_old_trailing_partial.
+Theorem C08_tucker_fixed_old_refuted :
+  tucker_fixed_old [4; 5; 6] [2; 3; 4] [0] = Ok [[2; 2; 3]; [4; 2]; [5; 2]; [6; 3]] /\
+  tucker_fixed [4; 5; 6] [2; 3; 4] [0] = Ok [[2; 3; 4]; [4; 2]; [5; 3]; [6; 4]].
+Proof. exact tucker_fixed_misaligned. Qed.
+Print Assumptions C08_tucker_fixed_old_refuted.
 
 (* correctness of the rounding model of the rank validators: np.round on an exact rational is within 1/2 and even on ties
    (this characterises round-half-to-even); floor / ceil; rounding_fun(sqrt(x)) decided by integer square roots *)
@@ -315,6 +325,46 @@ Theorem C08_nn_tucker_parafac2_old_flow_refuted :
   (forall tol_set decisions, ghost_p2_old tol_set 0 decisions = false).
 Proof. exact (conj ghost_nt_old_cap0 (conj ghost_nt_old_convergence ghost_p2_old_cap0)). Qed.
 Print Assumptions C08_nn_tucker_parafac2_old_flow_refuted.
+
+(* ---- the loop skeleton as data.  The harness reads a description of each driver's loop off the CURRENT source (ast walk) and Coq
+   evaluates desc_ok on it on every run; the contract is proved for EVERY description satisfying desc_ok, every cap and every
+   decision sequence, and the hypothesis is sharp (a description failing it has an un-normalised run). *)
+Theorem C08_gen_run_normalised : forall (St : Type) (sweep normalise : St -> St) (Normalised : St -> Prop),
+  (forall s, Normalised (normalise s)) ->
+  forall d tol_set n decisions s0, desc_ok d = true ->
+  Normalised (gen_run St sweep normalise d true tol_set n decisions s0).
+Proof. exact gen_run_normalised. Qed.
+Print Assumptions C08_gen_run_normalised.
+Theorem C08_desc_ok_sharp : forall d, desc_ok d = false ->
+  ghost_gen d 0 [] = false \/ ghost_gen d 1 [(true, false)] = false \/
+  ghost_gen d (S (S (conv_first d))) (repeat (false, false) (conv_first d) ++ [(false, true)]) = false \/ ghost_gen d 1 [] = false.
+Proof. exact desc_ok_sharp. Qed.
+Print Assumptions C08_desc_ok_sharp.
+Theorem C08_skeletons_are_instances : forall (St : Type) (sweep normalise : St -> St) nf tol_set fuel it s,
+  (forall decisions, cp_loop St sweep normalise nf tol_set it fuel decisions s = gen_loop St sweep normalise cp_desc nf tol_set it fuel decisions s) /\
+  (forall decisions, nt_loop St sweep normalise nf tol_set it fuel decisions s = gen_loop St sweep normalise nt_desc nf tol_set it fuel (lift decisions) s) /\
+  (forall decisions, p2_loop St sweep normalise nf tol_set it fuel decisions s = gen_loop St sweep normalise p2_desc nf tol_set it fuel (lift decisions) s).
+Proof.
+  exact (fun St sweep normalise nf tol_set fuel it s =>
+    conj (fun ds => cp_loop_is_gen St sweep normalise nf tol_set fuel it ds s)
+   (conj (fun ds => nt_loop_is_gen St sweep normalise nf tol_set fuel it ds s)
+         (fun ds => p2_loop_is_gen St sweep normalise nf tol_set fuel it ds s))).
+Qed.
+Print Assumptions C08_skeletons_are_instances.
+Example C08_desc_ex : desc_ok cp_desc = true /\ desc_ok nt_desc = true /\ desc_ok p2_desc = true /\
+  desc_ok (mkDesc false false true false true 1) = false.      (* parafac before 3de556b, as the extractor reads it *)
+Proof. repeat split. Qed.
+
+(* ---- the exact rational checkers evaluated on the implementation's outputs: what a `true` answer means *)
+Theorem C08_orth_ok_sound : forall k M tol, orth_ok k M tol = true ->
+  forall a b, a < k -> b < k -> (Qabs.Qabs (gram_entry k M a b - qdelta a b) <= tol)%Q.
+Proof. exact orth_ok_sound. Qed.
+Print Assumptions C08_orth_ok_sound.
+Theorem C08_projection_ok_sound : forall shape ranks X core fs tol, projection_ok shape ranks X core fs tol = true ->
+  length core = prod ranks /\
+  forall j, j < prod ranks -> (Qabs.Qabs (project_entry shape ranks X fs j - nth j core 0%Q) <= tol)%Q.
+Proof. exact projection_ok_sound. Qed.
+Print Assumptions C08_projection_ok_sound.
 
 (* ================================================================== canonical form over R *)
 Local Open Scope R_scope.
